@@ -1,5 +1,8 @@
 import Poulpy.Lemmas.CkksCnv
 import Poulpy.Lemmas.CkksMask
+import Poulpy.Lemmas.MulTensor
+import Poulpy.Lemmas.CkksAccBound
+import Poulpy.Props.C05
 /-!
 # C16, piece 5 (first half): the tensor columns of `glwe_tensor_apply` on coefficients
 
@@ -217,6 +220,271 @@ theorem cnvTrunc_coeff (N : Nat) (hN : 0 < N) (big : Bool) (b ts cnv : Nat) (hb1
             _ ≤ 2 ^ (b * S + (-lo).toNat) * (2 * H1 * 2 ^ (b * j)) := mul_le_mul_of_nonneg_right hcov (by positivity)
             _ = _ := by ring
       calc |e * 2 ^ (b * j) - 2 ^ (b * ts) * D| ≤ |e * 2 ^ (b * j)| + |2 ^ (b * ts) * D| := abs_sub _ _
+        _ ≤ _ := by linarith
+
+theorem limbBound_shape' (F ts b obn lon : Nat) (hF : 1 ≤ F) (hts : 1 ≤ ts) (hb : 1 ≤ b) (h : lon ≤ obn) :
+    1 ≤ limbBound F ts b b obn ∧ limbBound F ts b b obn ≤ F ∧ (limbBound F ts b b obn = F ∨ b * ts + lon ≤ b * limbBound F ts b b obn) := by
+  unfold limbBound
+  set Q := (ts * b + obn + b - 1) / b with hQ
+  have hQ1 : ts * b + obn ≤ Q * b := by
+    have := Nat.lt_div_mul_add (a := ts * b + obn + b - 1) (b := b) (by omega)
+    rw [← hQ] at this
+    omega
+  have hQts : ts ≤ Q := by
+    have : ts * b ≤ Q * b := by omega
+    exact Nat.le_of_mul_le_mul_right this (by omega)
+  refine ⟨by omega, Nat.min_le_left _ _, ?_⟩
+  rcases Nat.le_total F Q with h' | h'
+  · left; exact Nat.min_eq_left h'
+  · right
+    rw [Nat.min_eq_right h']
+    calc b * ts + lon ≤ ts * b + obn := by rw [Nat.mul_comm]; omega
+      _ ≤ Q * b := hQ1
+      _ = b * Q := Nat.mul_comm _ _
+
+/-- what `normalize_input_limb_bound_with_offset` guarantees -/
+theorem limbBound_shape (F ts b : Nat) (lo : Int) (hF : 1 ≤ F) (hts : 1 ≤ ts) (hb : 1 ≤ b) (hlo : lo < b) :
+    1 ≤ limbBoundWithOffset F ts b b lo ∧ limbBoundWithOffset F ts b b lo ≤ F ∧
+      (limbBoundWithOffset F ts b b lo = F ∨ b * ts + lo.toNat ≤ b * limbBoundWithOffset F ts b b lo) := by
+  unfold limbBoundWithOffset
+  apply limbBound_shape' F ts b _ lo.toNat hF hts hb
+  have hob1 : (lo.toNat : Int) ≤ (if lo < 0 ∧ Int.tmod lo b ≠ 0 then Int.tmod lo b + b else Int.tmod lo b) := by
+    by_cases hneg : lo < 0
+    · have h0 : lo.toNat = 0 := by omega
+      rw [h0]
+      split
+      · have h2 := Int.lt_tmod_of_pos lo (by omega : (0 : Int) < b)
+        push_cast; omega
+      · next h =>
+        push Not at h
+        have := h hneg
+        rw [this]; simp
+    · have hnn : 0 ≤ lo := by omega
+      rw [if_neg (by omega)]
+      rw [Int.tmod_eq_emod_of_nonneg hnn, Int.emod_eq_of_lt hnn hlo]
+      omega
+  have h0 : (0 : Int) ≤ (if lo < 0 ∧ Int.tmod lo b ≠ 0 then Int.tmod lo b + b else Int.tmod lo b) := le_trans (by positivity) hob1
+  have := Int.toNat_of_nonneg h0
+  omega
+
+theorem halColAdd_eq (n : Nat) (a b : Col) (h : a.length = b.length) : Hal.colAdd n a b = C02L.colAdd a b := by
+  unfold Hal.colAdd C02L.colAdd
+  apply List.ext_getElem
+  · simp [h]
+  · intro j h1 h2
+    simp only [List.length_map, List.length_range, h, Nat.max_self] at h1
+    simp only [List.getElem_map, List.getElem_range, List.getElem_zipWith, limbOr0]
+    rw [List.getD_eq_getElem?_getD, List.getD_eq_getElem?_getD, List.getElem?_eq_getElem (by omega), List.getElem?_eq_getElem h1]
+    rfl
+
+theorem w64_small {x : Int} (h : |x| ≤ 2 ^ 62) : w64 x = x := by
+  have := abs_le.mp h
+  unfold w64
+  omega
+
+/-- the off-diagonal tensor column `(−d₀ − d₁) + p` in wrapping arithmetic is the exact `p − d₀ − d₁` on balanced columns -/
+theorem col1_eq (N rs : Nat) (d0 d1 p : Col) (h0 : ColWF N rs d0) (h1 : ColWF N rs d1) (hp : ColWF N rs p)
+    (b0 : ∀ l ∈ d0, ∀ v ∈ l, |v| ≤ 2 ^ 60) (b1 : ∀ l ∈ d1, ∀ v ∈ l, |v| ≤ 2 ^ 60) (bp : ∀ l ∈ p, ∀ v ∈ l, |v| ≤ 2 ^ 60) :
+    vecAddAssignW w64 (vecSubAssignW w64 (vecNegate N rs d0) d1) p
+      = C02L.colAdd (C02L.colAdd (d0.map polyNeg) (d1.map polyNeg)) p := by
+  rw [vecNegate_shape N rs d0 h0.1, vecSubAssign_shape _ d1 (by simp [h0.1, h1.1]),
+    vecAddAssign_shape _ p (by simp [h0.1, h1.1, hp.1])]
+  unfold C02L.colAdd
+  apply List.ext_getElem
+  · simp [h0.1, h1.1, hp.1]
+  · intro j hj1 hj2
+    have hj : j < rs := by simpa [h0.1, h1.1, hp.1] using hj1
+    simp only [List.getElem_zipWith, List.getElem_map]
+    have m0 : d0[j]'(by rw [h0.1]; exact hj) ∈ d0 := List.getElem_mem _
+    have m1 : d1[j]'(by rw [h1.1]; exact hj) ∈ d1 := List.getElem_mem _
+    have mp : p[j]'(by rw [hp.1]; exact hj) ∈ p := List.getElem_mem _
+    set l0 := d0[j]'(by rw [h0.1]; exact hj)
+    set l1 := d1[j]'(by rw [h1.1]; exact hj)
+    set lp := p[j]'(by rw [hp.1]; exact hj)
+    unfold znxAddW znxSubW znxNegateW polyNeg polyAdd
+    apply List.ext_getElem
+    · simp
+    · intro t ht1 ht2
+      simp only [List.getElem_zipWith, List.getElem_map]
+      have ht : t < N := by
+        simp only [List.length_zipWith, List.length_map, h0.2 l0 m0, h1.2 l1 m1, hp.2 lp mp] at ht1
+        omega
+      have e0 := b0 l0 m0 (l0[t]'(by rw [h0.2 l0 m0]; exact ht)) (List.getElem_mem _)
+      have e1 := b1 l1 m1 (l1[t]'(by rw [h1.2 l1 m1]; exact ht)) (List.getElem_mem _)
+      have ep := bp lp mp (lp[t]'(by rw [hp.2 lp mp]; exact ht)) (List.getElem_mem _)
+      set x0 := l0[t]'(by rw [h0.2 l0 m0]; exact ht)
+      set x1 := l1[t]'(by rw [h1.2 l1 m1]; exact ht)
+      set xp := lp[t]'(by rw [hp.2 lp mp]; exact ht)
+      have a0 := abs_le.mp e0
+      have a1 := abs_le.mp e1
+      have ap := abs_le.mp ep
+      have w1 : w64 (-x0) = -x0 := w64_small (by rw [abs_neg]; linarith)
+      have w2 : w64 (-x0 - x1) = -x0 - x1 := w64_small (by rw [abs_le]; constructor <;> linarith)
+      have w3 : w64 (-x0 - x1 + xp) = -x0 - x1 + xp := w64_small (by rw [abs_le]; constructor <;> linarith)
+      rw [w1, w2, w3]
+      ring
+
+/-- the loops of `glwe_tensor_apply` for two columns -/
+theorem tensorCore2 (n rs : Nat) (D : Nat → Option Col) (P : Nat → Nat → Option Col) (r0 r1 r2 d0 d1 p : Col)
+    (h0 : D 0 = some d0) (h1 : D 1 = some d1) (hp : P 0 1 = some p) :
+    tensorApplyCore false n 2 rs D P [r0, r1, r2]
+      = some [vecCopy n rs d0, vecAddAssignW w64 (vecSubAssignW w64 (vecNegate n rs d0) d1) p, vecCopy n rs d1] := by
+  unfold tensorApplyCore
+  simp [List.range_succ, h0, h1, hp, tensorDiagStep, mulUpdCol, colIdx]
+
+/-- the relation of one tensor column `T` with its exact product `Q` (coefficient `t`), `U` units of the tensor's last limb -/
+def ColRel (b ts cnv E : Nat) (T : Col) (Q : Int) (U : Int) (t : Nat) : Prop :=
+  ∃ q e : Int, 2 ^ E * valCoeff b T t = 2 ^ (cnv + (-(cnvOffsetSplit b cnv).2).toNat) * 2 ^ (b * ts) * Q + e + q * 2 ^ (b * ts + E) ∧
+    |e| ≤ U * 2 ^ E
+
+theorem colAdd_digits {x y : Col} {H : Int} (hx : ∀ l ∈ x, ∀ v ∈ l, |v| ≤ H) (hy : ∀ l ∈ y, ∀ v ∈ l, |v| ≤ H) :
+    ∀ l ∈ C02L.colAdd x y, ∀ v ∈ l, |v| ≤ H + H := by
+  intro l hl v hv
+  unfold C02L.colAdd at hl
+  obtain ⟨a, ha, b', hb', rfl⟩ := Ckks.Bound.mem_zipWith hl
+  obtain ⟨u, hu, w, hw, rfl⟩ := Ckks.Bound.mem_zipWith hv
+  exact (abs_add_le _ _).trans (add_le_add (hx a ha u hu) (hy b' hb' w hw))
+
+theorem colAdd_wf {N L : Nat} {x y : Col} (hx : ColWF N L x) (hy : ColWF N L y) : ColWF N L (C02L.colAdd x y) := by
+  refine ⟨by simp [C02L.colAdd, hx.1, hy.1], ?_⟩
+  intro l hl
+  unfold C02L.colAdd at hl
+  obtain ⟨a, ha, b', hb', rfl⟩ := Ckks.Bound.mem_zipWith hl
+  simp [polyAdd, hx.2 a ha, hy.2 b' hb']
+
+/-- **the three tensor columns of a rank-1 product on coefficients.**  `p₀,p₁` / `r₀,r₁` are the prepared columns (`La` / `Lb` limbs,
+digits within `2^b`); the tensor has `ts` limbs; `H1 = 4·Lb·N·2^b` bounds the accumulators (in units `2^b`). -/
+theorem tensor2_value (N : Nat) (hN : 0 < N) (big : Bool) (b ts cnv : Nat) (hb1 : 1 ≤ b) (hb62 : b ≤ 60) (hts : 1 ≤ ts)
+    (p0 p1 r0 r1 : Col) (La Lb : Nat) (hp0 : ColWF N La p0) (hp1 : ColWF N La p1) (hr0 : ColWF N Lb r0) (hr1 : ColWF N Lb r1)
+    (hLa : 1 ≤ La) (hLb : 1 ≤ Lb)
+    (dp0 : ∀ l ∈ p0, ∀ v ∈ l, |v| ≤ 2 ^ b) (dp1 : ∀ l ∈ p1, ∀ v ∈ l, |v| ≤ 2 ^ b)
+    (dr0 : ∀ l ∈ r0, ∀ v ∈ l, |v| ≤ 2 ^ b) (dr1 : ∀ l ∈ r1, ∀ v ∈ l, |v| ≤ 2 ^ b)
+    (hhi : (cnvOffsetSplit b cnv).1 ≤ La + Lb - 1)
+    (hroom : 2 ^ b * (4 * (Lb : Int) * N * 2 ^ b) + 8 ≤ 2 ^ (bitsOf big - 2)) (z0 z1 z2 : Col) :
+    ∃ T0 T1 T2, tensorApplyCore false N 2 ts
+        (fun i => cnvNorm big N b ts b (limbBoundWithOffset (La + Lb - (cnvOffsetSplit b cnv).1) ts b b (cnvOffsetSplit b cnv).2)
+          (cnvOffsetSplit b cnv).1 (cnvOffsetSplit b cnv).2 ([p0, p1].getD i []) ([r0, r1].getD i []))
+        (fun i j => cnvNorm big N b ts b (limbBoundWithOffset (La + Lb - (cnvOffsetSplit b cnv).1) ts b b (cnvOffsetSplit b cnv).2)
+          (cnvOffsetSplit b cnv).1 (cnvOffsetSplit b cnv).2 (Hal.colAdd N ([p0, p1].getD i []) ([p0, p1].getD j []))
+            (Hal.colAdd N ([r0, r1].getD i []) ([r0, r1].getD j []))) [z0, z1, z2] = some [T0, T1, T2] ∧
+      ColWF N ts T0 ∧ ColWF N ts T1 ∧ ColWF N ts T2 ∧
+      (∀ l ∈ T0, ∀ v ∈ l, |v| ≤ 2 ^ (b - 1)) ∧ (∀ l ∈ T1, ∀ v ∈ l, |v| ≤ 3 * 2 ^ (b - 1)) ∧ (∀ l ∈ T2, ∀ v ∈ l, |v| ≤ 2 ^ (b - 1)) ∧
+      ∀ t, t < N →
+        ColRel b ts cnv (b * (La + Lb) + (-(cnvOffsetSplit b cnv).2).toNat) T0
+          ((Hal.negMul (valP b N p0) (valP b N r0)).getD t 0) (1 + 2 * (4 * (Lb : Int) * N * 2 ^ b)) t ∧
+        ColRel b ts cnv (b * (La + Lb) + (-(cnvOffsetSplit b cnv).2).toNat) T2
+          ((Hal.negMul (valP b N p1) (valP b N r1)).getD t 0) (1 + 2 * (4 * (Lb : Int) * N * 2 ^ b)) t ∧
+        ColRel b ts cnv (b * (La + Lb) + (-(cnvOffsetSplit b cnv).2).toNat) T1
+          ((Hal.negMul (valP b N p0) (valP b N r1)).getD t 0 + (Hal.negMul (valP b N p1) (valP b N r0)).getD t 0)
+          (3 * (1 + 2 * (4 * (Lb : Int) * N * 2 ^ b))) t := by
+  set hi := (cnvOffsetSplit b cnv).1 with hhidef
+  set lo := (cnvOffsetSplit b cnv).2 with hlodef
+  set F := La + Lb - hi with hF
+  set S := limbBoundWithOffset F ts b b lo with hSdef
+  set H1 : Int := 4 * (Lb : Int) * N * 2 ^ b with hH1
+  have hlo := (C05.cnvOffsetSplit_lo_range b cnv (by omega)).2.1
+  rw [← hlodef] at hlo
+  obtain ⟨hS1, hSF, hS⟩ := limbBound_shape F ts b lo (by omega) hts hb1 hlo
+  have hpb : (0 : Int) < 2 ^ b := by positivity
+  have hH10 : 0 ≤ H1 := by positivity
+  have hb62' : b ≤ 62 := by omega
+  -- the pair operands
+  set xp := Hal.colAdd N p0 p1 with hxp
+  set yp := Hal.colAdd N r0 r1 with hyp
+  have hxpe : xp = C02L.colAdd p0 p1 := halColAdd_eq N p0 p1 (by rw [hp0.1, hp1.1])
+  have hype : yp = C02L.colAdd r0 r1 := halColAdd_eq N r0 r1 (by rw [hr0.1, hr1.1])
+  have hxpwf : ColWF N La xp := by rw [hxpe]; exact colAdd_wf hp0 hp1
+  have hypwf : ColWF N Lb yp := by rw [hype]; exact colAdd_wf hr0 hr1
+  have dxp : ∀ l ∈ xp, ∀ v ∈ l, |v| ≤ 2 ^ b + 2 ^ b := by rw [hxpe]; exact colAdd_digits dp0 dp1
+  have dyp : ∀ l ∈ yp, ∀ v ∈ l, |v| ≤ 2 ^ b + 2 ^ b := by rw [hype]; exact colAdd_digits dr0 dr1
+  -- accumulator bounds
+  have accD : ∀ (x y : Col), ColWF N La x → ColWF N Lb y → (∀ l ∈ x, ∀ v ∈ l, |v| ≤ 2 ^ b) → (∀ l ∈ y, ∀ v ∈ l, |v| ≤ 2 ^ b) →
+      ∀ l ∈ Hal.cnvApplyCol N (La + y.length - hi) hi x y, ∀ v ∈ l, |v| ≤ 2 ^ b * H1 := by
+    intro x y hx hy dx dy l hl v hv
+    have := AccBound.cnvApplyCol_bound N (La + y.length - hi) hi x y (2 ^ b) (2 ^ b) (by positivity) (by positivity) dx dy hx.2 l hl v hv
+    rw [hy.1] at this
+    refine this.trans ?_
+    rw [hH1]
+    have : (0 : Int) ≤ (Lb : Int) * (N * 2 ^ b * 2 ^ b) := by positivity
+    nlinarith
+  have accP : ∀ l ∈ Hal.cnvApplyCol N (La + yp.length - hi) hi xp yp, ∀ v ∈ l, |v| ≤ 2 ^ b * H1 := by
+    intro l hl v hv
+    have := AccBound.cnvApplyCol_bound N (La + yp.length - hi) hi xp yp (2 ^ b + 2 ^ b) (2 ^ b + 2 ^ b) (by positivity) (by positivity)
+      dxp dyp hxpwf.2 l hl v hv
+    rw [hypwf.1] at this
+    refine this.trans (le_of_eq ?_)
+    rw [hH1]; ring
+  -- the three normalised convolutions
+  obtain ⟨d0, e0, w0, b0, v0⟩ := cnvTrunc_coeff N hN big b ts cnv hb1 hb62' p0 r0 La S hp0.1 hp0.2 hr0.2 hLa (by rw [hr0.1]; exact hLb)
+    (by rw [hr0.1]; exact hhi) hS1 (by rw [hr0.1]; exact hSF) (by rw [hr0.1]; exact hS) H1 hH10 hroom
+    (accD p0 r0 hp0 hr0 dp0 dr0)
+  obtain ⟨d1, e1, w1, b1', v1⟩ := cnvTrunc_coeff N hN big b ts cnv hb1 hb62' p1 r1 La S hp1.1 hp1.2 hr1.2 hLa (by rw [hr1.1]; exact hLb)
+    (by rw [hr1.1]; exact hhi) hS1 (by rw [hr1.1]; exact hSF) (by rw [hr1.1]; exact hS) H1 hH10 hroom
+    (accD p1 r1 hp1 hr1 dp1 dr1)
+  obtain ⟨pp, ep, wp, bp, vp⟩ := cnvTrunc_coeff N hN big b ts cnv hb1 hb62' xp yp La S hxpwf.1 hxpwf.2 hypwf.2 hLa (by rw [hypwf.1]; exact hLb)
+    (by rw [hypwf.1]; exact hhi) hS1 (by rw [hypwf.1]; exact hSF) (by rw [hypwf.1]; exact hS) H1 hH10 hroom accP
+  have hhalf60 : (2 : Int) ^ (b - 1) ≤ 2 ^ 60 := pow_le_pow_right₀ (by norm_num) (by omega)
+  have hcol1 := col1_eq N ts d0 d1 pp w0 w1 wp (fun l hl v hv => (b0 l hl v hv).trans hhalf60)
+    (fun l hl v hv => (b1' l hl v hv).trans hhalf60) (fun l hl v hv => (bp l hl v hv).trans hhalf60)
+  refine ⟨d0, C02L.colAdd (C02L.colAdd (d0.map polyNeg) (d1.map polyNeg)) pp, d1, ?_, w0, ?_, w1, b0, ?_, b1', fun t ht => ⟨?_, ?_, ?_⟩⟩
+  · rw [tensorCore2 N ts _ _ z0 z1 z2 d0 d1 pp e0 e1 ep, vecCopy_shape N ts d0 w0.1, vecCopy_shape N ts d1 w1.1, hcol1]
+  · have hn0 : ColWF N ts (d0.map polyNeg) := ⟨by simp [w0.1], by
+      intro l hl; obtain ⟨l0, h0, rfl⟩ := List.mem_map.mp hl; simp [polyNeg, w0.2 l0 h0]⟩
+    have hn1 : ColWF N ts (d1.map polyNeg) := ⟨by simp [w1.1], by
+      intro l hl; obtain ⟨l0, h0, rfl⟩ := List.mem_map.mp hl; simp [polyNeg, w1.2 l0 h0]⟩
+    exact colAdd_wf (colAdd_wf hn0 hn1) wp
+  · have hneg : ∀ (d : Col), (∀ l ∈ d, ∀ v ∈ l, |v| ≤ 2 ^ (b - 1)) → ∀ l ∈ d.map polyNeg, ∀ v ∈ l, |v| ≤ 2 ^ (b - 1) := by
+      intro d hd l hl v hv
+      obtain ⟨l0, h0, rfl⟩ := List.mem_map.mp hl
+      simp only [polyNeg, List.mem_map] at hv
+      obtain ⟨u, hu, rfl⟩ := hv
+      rw [abs_neg]; exact hd l0 h0 u hu
+    intro l hl v hv
+    unfold C02L.colAdd at hl
+    obtain ⟨a, ha, c, hc, rfl⟩ := Ckks.Bound.mem_zipWith hl
+    obtain ⟨u, hu, w, hw, rfl⟩ := Ckks.Bound.mem_zipWith hv
+    have h12 := colAdd_digits (hneg d0 b0) (hneg d1 b1') a ha u hu
+    have h3 := bp c hc w hw
+    calc |u + w| ≤ |u| + |w| := abs_add_le _ _
+      _ ≤ _ := by linarith
+  · obtain ⟨q, e, h1, h2⟩ := v0 t ht
+    rw [hr0.1] at h1 h2
+    exact ⟨q, e, h1, h2⟩
+  · obtain ⟨q, e, h1, h2⟩ := v1 t ht
+    rw [hr1.1] at h1 h2
+    exact ⟨q, e, h1, h2⟩
+  · obtain ⟨q0, e0', h01, h02⟩ := v0 t ht
+    obtain ⟨q1, e1', h11, h12⟩ := v1 t ht
+    obtain ⟨qp, ep', hp1', hp2⟩ := vp t ht
+    rw [hr0.1] at h01 h02
+    rw [hr1.1] at h11 h12
+    rw [hypwf.1] at hp1' hp2
+    -- the value of the off-diagonal column
+    have hn0 : ColWF N ts (d0.map polyNeg) := ⟨by simp [w0.1], by
+      intro l hl; obtain ⟨l0, h0, rfl⟩ := List.mem_map.mp hl; simp [polyNeg, w0.2 l0 h0]⟩
+    have hn1 : ColWF N ts (d1.map polyNeg) := ⟨by simp [w1.1], by
+      intro l hl; obtain ⟨l0, h0, rfl⟩ := List.mem_map.mp hl; simp [polyNeg, w1.2 l0 h0]⟩
+    have hval : valCoeff b (C02L.colAdd (C02L.colAdd (d0.map polyNeg) (d1.map polyNeg)) pp) t
+        = valCoeff b pp t - valCoeff b d0 t - valCoeff b d1 t := by
+      rw [valCoeff_colAdd b (colAdd_wf hn0 hn1) wp t, valCoeff_colAdd b hn0 hn1 t, Ckks.CoreSem.valCoeff_map_neg, Ckks.CoreSem.valCoeff_map_neg]
+      ring
+    -- the exact product of the pair operands
+    have hPl : ∀ c : Col, (valP b N c).length = N := fun c => by simp
+    have hQ : (Hal.negMul (valP b N xp) (valP b N yp)).getD t 0
+        = (Hal.negMul (valP b N p0) (valP b N r0)).getD t 0 + (Hal.negMul (valP b N p0) (valP b N r1)).getD t 0
+          + ((Hal.negMul (valP b N p1) (valP b N r0)).getD t 0 + (Hal.negMul (valP b N p1) (valP b N r1)).getD t 0) := by
+      rw [hxpe, hype, valP_colAdd b hp0 hp1, valP_colAdd b hr0 hr1,
+        C05.tensor_bilinear _ _ _ _ (by rw [hPl, hPl]) (by rw [hPl, hPl])]
+      rw [getD_polyAdd _ _ _ (by simp [polyAdd, Hal.negMul_length]), getD_polyAdd _ _ _ (by simp [Hal.negMul_length]),
+        getD_polyAdd _ _ _ (by simp [Hal.negMul_length])]
+    refine ⟨qp - q0 - q1, ep' - e0' - e1', ?_, ?_⟩
+    · rw [hQ] at hp1'
+      rw [hval]
+      linear_combination hp1' - h01 - h11
+    · calc |ep' - e0' - e1'| ≤ |ep'| + |e0'| + |e1'| := by
+            have h1 := abs_sub (ep' - e0') e1'
+            have h2 := abs_sub ep' e0'
+            linarith
         _ ≤ _ := by linarith
 
 end Ckks.Tensor
